@@ -73,6 +73,102 @@ def main():
                 F.add("peek_sample", c, pct, exp)
             if list(r["name"]) != ["planted", "other"] or len(r) != 2:
                 F.add("peek", c, list(r["name"]), ["planted", "other"])
+        elif suite == "transpose":
+            for tag in ("int", "str"):
+                conc = lambda x: None if x == -1 else A.concrete(tag, x, n % 3)      # noqa: E731
+                M = [[conc(x) for x in col] for col in c["M"]]
+                t = Table([Vector(list(col), name="m%d" % i) for i, col in enumerate(M)])
+                before = [list(x) for x in t.cols()]
+                st, r, e = attempt(lambda: t.T)
+                ex += 1
+                exp = [[conc(x) for x in col] for col in c["out"]]
+                if st != "ok" or not isinstance(r, Table) or not views_equal([list(x) for x in r.cols()], exp):
+                    F.add("transpose", c, [list(x) for x in r.cols()] if st == "ok" and isinstance(r, Table) else repr(e or r), exp, tag=tag)
+                    continue
+                st, r2, e = attempt(lambda: r.T)
+                if st != "ok" or not views_equal([list(x) for x in r2.cols()], M):
+                    F.add("transpose", c, "t.T.T differs from t", M, tag=tag)
+                if not views_equal([list(x) for x in t.cols()], before):
+                    F.add("operands_unchanged", c, "T changed its table", "unchanged")
+        elif suite == "pluck":
+            for form in ("list", "tuple", "str", "dict"):
+                def item(i, cells):
+                    if c["isnone"][i]:
+                        return None
+                    if form == "list":
+                        return list(cells)
+                    if form == "tuple":
+                        return tuple(cells)
+                    if form == "str":
+                        return "".join(chr(48 + x % 70) for x in cells)
+                    return {j: x for j, x in enumerate(cells)}
+                items = [item(i, cells) for i, cells in enumerate(c["items"])]
+                k = c["k"]
+                if form == "dict" and k < 0:
+                    continue
+                v = Vector(list(items), name="p")
+                st, r, e = attempt(lambda: v.pluck(k, default=-7))
+                ex += 1
+                exp = [x if x == -7 or form != "str" else chr(48 + x % 70) for x in c["out"]]
+                if st != "ok" or not views_equal(list(r), exp):
+                    F.add("pluck", c, list(r) if st == "ok" else type(e).__name__ + ": " + str(e)[:60], exp, form=form)
+                if [x for x in v] != items:
+                    F.add("operands_unchanged", c, "pluck changed its vector", "unchanged")
+        elif suite == "isinstance":
+            pytypes = {"int": int, "float": float, "str": str, "bool": bool, "none": type(None)}
+            sample = {"int": 3, "float": 2.5, "str": "s", "bool": True, "none": None}
+            vals = [sample[t] for t in c["tags"]]
+            T = tuple(pytypes[t] for t in c["T"])
+            for targ in ([T] + ([T[0]] if len(T) == 1 else [])):
+                st, r, e = attempt(lambda: Vector(list(vals)).isinstance(targ))
+                ex += 1
+                if st != "ok" or list(r) != c["out"]:
+                    F.add("isinstance", c, list(r) if st == "ok" else type(e).__name__, c["out"])
+                elif vals and (r.schema() is None or r.schema().kind is not bool or r.schema().nullable):
+                    F.add("isinstance_dtype", c, str(r.schema()), "<bool>")
+        elif suite == "cast":
+            srcs = {"int": lambda x: x + 1, "str": lambda x: str(x + 1), "float": lambda x: x + 0.5, "bool": lambda x: bool(x)}
+            for sname, mk in srcs.items():
+                vals = [None if x == -1 else mk(x) for x in c["vals"]]
+                for tgt in (int, float, str, bool, complex):
+                    try:
+                        exp = [None if x is None else tgt(x) for x in vals]
+                    except Exception:      # noqa: BLE001
+                        continue
+                    v = Vector(list(vals), name="c")
+                    st, r, e = attempt(lambda: v.cast(tgt))
+                    ex += 1
+                    if st != "ok" or not views_equal(list(r), exp):
+                        F.add("cast_values", c, list(r) if st == "ok" else type(e).__name__ + ": " + str(e)[:60], exp, source=sname, target=tgt.__name__)
+                        continue
+                    if [i + 1 for i, x in enumerate(r) if x is None] != sorted(c["nonepos"]):
+                        F.add("cast_none", c, list(r), c["nonepos"])
+                    sch = r.schema()
+                    if vals and (sch is None or sch.kind is not tgt or bool(sch.nullable) != c["nullable"]):
+                        F.add("cast_dtype", c, str(sch), tgt.__name__ + ("?" if c["nullable"] else ""), source=sname)
+                    if r.name != "c":
+                        F.add("cast_name", c, r.name, "c")
+        elif suite == "tcompare":
+            import operator
+            ops = {"eq": operator.eq, "ne": operator.ne, "lt": operator.lt, "le": operator.le, "gt": operator.gt, "ge": operator.ge}
+            for tag in ("int", "float", "str"):
+                conc = lambda x: None if x == -1 else A.concrete(tag, x, n % 3)      # noqa: E731
+                M = [[conc(x) for x in col] for col in c["M"]]
+                if not M[0]:
+                    continue
+                t = Table([Vector(list(col), name="m%d" % i) for i, col in enumerate(M)])
+                st, r, e = attempt(lambda: ops[c["op"]](t, conc(c["x"])))
+                ex += 1
+                if st != "ok" or not isinstance(r, Vector):
+                    F.add("table_compare", c, type(e).__name__ + ": " + str(e)[:60] if st != "ok" else repr(r), c["out"], tag=tag)
+                    continue
+                got = [list(x) for x in r.cols()]
+                if got != c["out"]:
+                    F.add("table_compare", c, got, c["out"], tag=tag)
+                for col in r.cols():
+                    sch = col.schema()
+                    if sch is None or sch.kind is not bool or sch.nullable:
+                        F.add("table_compare_dtype", c, str(sch), "<bool>", tag=tag)
     json.dump({"executed": ex, "failures": F.items, "per_clause": F.per, "skipped": F.skipped}, open(sys.argv[4], "w"), default=str)
 
 
